@@ -119,6 +119,18 @@ def body(ctx):
                     bits, os_ = ctx.rng.getrandbits(NF) | ctx.rng.getrandbits(NF), ctx.rng.choice(OS_STATES)
                 a, b = ctx.rng.randrange(1000), ctx.rng.randrange(1000)
                 plan.append("disp L%d - 0 %s %s - -" % (i, cfgrow(bits, os_, j & 1), bytes([a & 255, a >> 8, b & 255, b >> 8]).hex()))
+        # the default list (supported_architectures) under injected availability: all, none, every prefix of the extension chain, random
+        chain = [0, 1, 2, 3, 4, 6, 5, 8, 9, 10, 11, 12, 13, 16, 17, 18, 19, 7, 14, 15]
+        acc, dcfg = 0, [(full, 0b1111), (0, 0b1111), (full, 0b0000), (full, 0b0111), (full, 0b0011)]
+        for b in chain:
+            acc |= 1 << b
+            dcfg.append((acc, 0b1111))
+            dcfg.append((acc, 0b0111))
+        for _ in range(ctx.q(40, 400)):
+            dcfg.append((ctx.rng.getrandbits(NF) | ctx.rng.getrandbits(NF), ctx.rng.choice(OS_STATES)))
+        for j, (bits, os_) in enumerate(dcfg):
+            a, b = ctx.rng.randrange(1000), ctx.rng.randrange(1000)
+            plan.append("disp Ldef - 0 %s %s - -" % (cfgrow(bits, os_, j & 1), bytes([a & 255, a >> 8, b & 255, b >> 8]).hex()))
     ctx.log("plan: %d lines, %d dispatch lists" % (len(plan), len(lists)))
     pl = os.path.join(ctx.work, "c15.plan")
     with open(pl, "w") as f:
@@ -129,7 +141,12 @@ def body(ctx):
     with open(out) as f:
         for line in f:
             e = json.loads(line)
-            if e["k"] == "disp":
+            if e["k"] == "disp" and e["op"] == "Ldef":
+                n = e["r"][40]
+                e["list"] = e["r"][41:41 + n]
+                e["best"] = e["r"][41 + n]
+                e["r"] = e["r"][:40]
+            elif e["k"] == "disp":
                 e["list"] = lists[int(e["op"][1:])]
             events.append(e)
     os.remove(out)
